@@ -1211,15 +1211,20 @@ fn run_space(ctx: &Ctx, sp: &Space, wall_cap_s: f64, out: &mut Sink) {
         }
         for j in &row.fails {
             let (p, q) = (&pats[i], &pats[*j]);
-            let wu = find_witness(p, q);
-            let r = pair_case(p, q, wu.as_deref());
-            let f = match r.fail {
+            let f0 = match pair_case(p, q, Some("")).fail {
                 Some(f) => f,
                 None => continue,
             };
-            let culprit = if f.law == "no_panic" { None } else { Some(pair_culprit(p, q, &cache)) };
+            let culprit = if f0.law == "no_panic" { None } else { Some(pair_culprit(p, q, &cache)) };
+            let sig = signature(&f0, culprit.as_deref());
+            if out.seen.contains(&sig) {
+                continue;
+            }
+            // only now look for the smallest common URI (a scan of the pool)
+            let wu = find_witness(p, q);
+            let f = pair_case(p, q, wu.as_deref()).fail.unwrap_or(f0);
             out.push(Collected {
-                sig: signature(&f, culprit.as_deref()),
+                sig,
                 leg: leg_pr.clone(),
                 detail: json!({"what": f.what, "example": {"p": p.spec.text, "q": q.spec.text, "uri": wu},
                                "replay": {"case": "pair", "p": p.spec.to_json(), "q": q.spec.to_json(), "uri": wu}}),
